@@ -23,7 +23,7 @@ def harnesses():
             hs.append(H(M + "c30_%s_l%d" % (name, l), "text %r, line %d (concrete), character symbolic 0..=%d" % (text, l, mc), F[:1], tiers=tiers, timeout=1200,
                         assumes=["text and line are concrete per harness (a symbolic line drives str::lines symbolically: 6 GB / minutes per template); the character index is symbolic"]))
     for r in RANGES:
-        tiers = ("quick", "thorough") if r.split("_")[0] in QUICK else ("thorough",)
+        tiers = ("quick", "thorough") if (r.split("_")[0] in QUICK and r != "trail_0_2") else ("thorough",)   # trail_0_2 alone needs ~8 min
         hs.append(H(M + "c30_rng_" + r, "range over template %s, lines concrete, both characters symbolic, start <= end" % r, F, tiers=tiers, timeout=1200))
     hs.append(H(M + "c30_twin_must_fail", "vacuity twin", F[:1], expect="fail"))
     return hs
